@@ -616,6 +616,15 @@ func (c *Ctx) cmp(op Op, a, b *Term) *Term {
 	}
 	return c.mk(op, 0, []*Term{a, b}, 0, "")
 }
+// RawSLe builds a <=s b without consulting range facts (used to state the
+// range assumption itself).
+func (c *Ctx) RawSLe(a, b *Term) *Term {
+	if a.IsConst() && b.IsConst() {
+		return c.Bool(evalCmp(OpSLe, a.W, a.Val, b.Val))
+	}
+	return c.mk(OpSLe, 0, []*Term{a, b}, 0, "")
+}
+
 func (c *Ctx) ULt(a, b *Term) *Term { return c.cmp(OpULt, a, b) }
 func (c *Ctx) ULe(a, b *Term) *Term { return c.cmp(OpULe, a, b) }
 func (c *Ctx) SLt(a, b *Term) *Term { return c.cmp(OpSLt, a, b) }
